@@ -1,7 +1,7 @@
 (* Properties_C09.v — C09 (the tree of comm::all_reduce; the MPI reductions themselves are an oracle). *)
 From Coq Require Import ZArith List Bool Lia.
 Import ListNotations.
-From Ygm Require Import Gen.CArith Gen.Gen_tree Tree.
+From Ygm Require Import Gen.CArith Gen.Gen_tree Tree TreeFold.
 Local Open Scope Z_scope.
 
 Theorem C09_tree_indices_generated : forall size r, 0 <= r < 1073741823 ->
@@ -22,3 +22,22 @@ Print Assumptions C09_children_injective.
 Theorem C09_tree_no_deadlock : forall r, 0 <= r -> r < first_child r /\ r < second_child r /\ (0 < r -> parent r < r).
 Proof. exact tree_no_deadlock. Qed.
 Print Assumptions C09_tree_no_deadlock.
+
+
+(* THE FOLD THEOREM.  For every communicator size and every associative and commutative merge, the value the tree
+   reduction of comm::all_reduce(in, merge) delivers (rank 0's partial, which is then broadcast) equals the sequential
+   fold of all ranks' inputs in rank order.  [tree_all_reduce] merges a rank's input with its first child's partial and
+   then its second child's, exactly the order of the code (compared with the real library through a non-commutative
+   merge on every run). *)
+Theorem C09_tree_reduce_is_fold : forall (A : Type) (merge : A -> A -> A),
+  (forall a b c, merge (merge a b) c = merge a (merge b c)) -> (forall a b, merge a b = merge b a) ->
+  forall (input : Z -> A) size, 0 < size ->
+  tree_all_reduce merge input size = fold_left merge (map input (map Z.of_nat (seq 1 (Z.to_nat size - 1)))) (input 0).
+Proof. exact tree_reduce_is_fold. Qed.
+Print Assumptions C09_tree_reduce_is_fold.
+
+(* every rank contributes exactly once: the ranks merged into the root's partial are a permutation of 0 .. size-1 *)
+Theorem C09_every_rank_contributes_once : forall size, 0 < size ->
+  Permutation.Permutation (ranks (Z.to_nat size) size 0) (map Z.of_nat (seq 0 (Z.to_nat size))).
+Proof. exact ranks_root_perm. Qed.
+Print Assumptions C09_every_rank_contributes_once.
